@@ -660,33 +660,33 @@ theorem run_wf_empty (ops : List Op) (hv : ValidRun LOHG.empty ops) :
     ∃ f', run LOHG.empty ops = .ok f' ∧ f'.wf = true :=
   run_wf_from LOHG.empty ops (by decide) hv
 
-/-- a concrete valid history (hypothesis of `run_wf_from` / `Reachable`) -/
+/-- executable form of `ValidRun` -/
+def validRunB (f : D) : List Op → Bool
+  | [] => true
+  | op :: ops => decide (EditOK f op) &&
+      (match step f op with
+       | .ok f' => validRunB f' ops
+       | _ => true)
+
+theorem validRun_iff (f : D) (ops : List Op) : ValidRun f ops ↔ validRunB f ops = true := by
+  induction ops generalizing f with
+  | nil => simp [ValidRun, validRunB]
+  | cons op ops ih =>
+    simp only [ValidRun, validRunB, Bool.and_eq_true, decide_eq_true_eq]
+    cases hs : step f op with
+    | ok f1 =>
+      simp only [Res.ok.injEq, forall_eq']
+      rw [ih f1]
+    | none => simp
+    | panic s => simp
+
+/-- a concrete valid history (hypothesis of `run_wf_from`), with a duplicate id in a deletion -/
 example : ValidRun LOHG.empty [.newNode 10, .newOperation 5 [11] [12], .unify 0 1, .deleteNodes [0, 0],
-    .addEdgeSource 0 13, .deleteEdges [0]] := by
-  refine ⟨trivial, fun f1 h1 => ?_⟩
-  cases h1
-  refine ⟨trivial, fun f2 h2 => ?_⟩
-  cases h2
-  refine ⟨by decide, fun f3 h3 => ?_⟩
-  cases h3
-  refine ⟨by decide, fun f4 h4 => ?_⟩
-  have e4 : f4 = ⟨[], [], ⟨[11, 12], [5], [⟨[0], [1]⟩], ([], [])⟩⟩ := by
-    have : step (withH (withH (withH LOHG.empty (LHG.empty.newNode 10).1)
-      ((LHG.empty.newNode 10).1.newOperation 5 [11] [12]).1)
-      ((withH (withH LOHG.empty (LHG.empty.newNode 10).1)
-        ((LHG.empty.newNode 10).1.newOperation 5 [11] [12]).1).hypergraph.unify 0 1))
-      (.deleteNodes [0, 0]) = .ok ⟨[], [], ⟨[11, 12], [5], [⟨[0], [1]⟩], ([], [])⟩⟩ := by decide
-    rw [this] at h4
-    cases h4; rfl
-  subst e4
-  refine ⟨by decide, fun f5 h5 => ?_⟩
-  have e5 : f5 = ⟨[], [], ⟨[11, 12, 13], [5], [⟨[0, 2], [1]⟩], ([], [])⟩⟩ := by
-    have : step (⟨[], [], ⟨[11, 12], [5], [⟨[0], [1]⟩], ([], [])⟩⟩ : D) (.addEdgeSource 0 13) =
-        .ok ⟨[], [], ⟨[11, 12, 13], [5], [⟨[0, 2], [1]⟩], ([], [])⟩⟩ := by decide
-    rw [this] at h5
-    cases h5; rfl
-  subst e5
-  exact ⟨by decide, fun _ _ => trivial⟩
+    .addEdgeSource 0 13, .setSources [0, 2], .deleteEdges [0]] :=
+  (validRun_iff _ _).mpr (by decide)
+/-- … and an invalid one (node 1 no longer exists after the deletion) -/
+example : ¬ ValidRun LOHG.empty [.newNode 10, .newNode 11, .deleteNodes [0], .unify 0 1] :=
+  fun h => absurd ((validRun_iff _ _).mp h) (by decide)
 
 /-- a concrete valid history exercising every call -/
 example : run LOHG.empty
